@@ -133,6 +133,11 @@ def make_terms(pygam, kind):
 
 
 _USER_CACHE = {}
+# user callbacks whose hooks return None: kind -> (return rule for the model item, hooks)
+#   'n' = always None (side-effect / progress callback), 'e' = None in even iterations (metric every other iteration)
+NONE_KINDS = {'nas': ('n', 's'), 'nae': ('n', 'e'), 'nab': ('n', 'b'), 'nss': ('e', 's'), 'nse': ('e', 'e'), 'nsb': ('e', 'b')}
+HOOKS_PER_KIND = {'probe': 2, 'startonly': 1, 'endonly': 1, 'both': 2, 'noargs': 1, 'locals': 2,
+                  'nas': 1, 'nae': 1, 'nab': 2, 'nss': 1, 'nse': 1, 'nsb': 2}
 
 
 def user_callback(pygam, kind, name):
@@ -197,6 +202,27 @@ def user_callback(pygam, kind, name):
                     halved = twice / 2
                     return dict(h='e', k=_, diff=float(halved))
             _USER_CACHE[key] = WithLocals
+        elif kind in NONE_KINDS:
+            ret, hooks = NONE_KINDS[kind]
+
+            def init(self, name):
+                CallBack.__init__(self, name=name)
+                self.n_start = 0      # the callback's own tally of calls: the iteration count it witnessed
+                self.n_end = 0
+
+            def on_loop_start(self, _):
+                self.n_start += 1
+                return None if (ret == 'n' or _ % 2 == 0) else dict(h='s', k=_)
+
+            def on_loop_end(self, _, diff):
+                self.n_end += 1
+                return None if (ret == 'n' or _ % 2 == 0) else dict(h='e', k=_, diff=float(diff))
+            body = dict(__init__=init)
+            if hooks in ('s', 'b'):
+                body['on_loop_start'] = on_loop_start
+            if hooks in ('e', 'b'):
+                body['on_loop_end'] = on_loop_end
+            _USER_CACHE[key] = type('NoneCb_' + kind, (CallBack,), body)
         elif kind == 'noargs':
             class NoArgs(CallBack):
                 def __init__(self, name):
@@ -246,7 +272,10 @@ def model_items(pygam, items):
         if isinstance(it, str):
             toks.append(it)
         else:
-            toks.append(hook_spec(user_callback(pygam, it[1], it[2])))
+            tok = hook_spec(user_callback(pygam, it[1], it[2]))
+            if it[1] in NONE_KINDS:
+                tok += '/' + NONE_KINDS[it[1]][0]
+            toks.append(tok)
     return '=' + ','.join(toks)
 
 
@@ -465,7 +494,7 @@ def run_config(desc, cfg, rtol=1e-9):
     if w is not None and k and any(not rel_close(a, b, 1e-6) for a, b in zip(dev_exp, dev_w)):
         rec['quirks'].append(dict(kind='logged deviance is unweighted (the Deviance callback is not given the sample weights)', unweighted=dev_exp[-1], weighted=dev_w[-1]))
     # built-in logs of run A against the oracle's values
-    _oracle_builtin_logs(fail, logsA, a_items, k, dev_exp, acc_exp, c_in, diffs, rtol, run='A')
+    _oracle_builtin_logs(fail, logsA, a_items, k, dev_exp, acc_exp, c_in, diffs, rtol, run='A', gam=gA)
     rec['A'] = observe(gA, outA, probe_name)
 
     # ---- run B: exactly the configured callbacks (no probe unless configured) ------------------
@@ -485,7 +514,7 @@ def run_config(desc, cfg, rtol=1e-9):
         stB = getattr(gB, 'statistics_', None)
         if not isinstance(stB, dict) or not STAT_KEYS.issubset(stB.keys()):
             fail('statistics_ not populated', run='B')
-        _oracle_builtin_logs(fail, logsB, base_items, k, dev_exp, acc_exp, c_in, diffs, rtol, run='B')
+        _oracle_builtin_logs(fail, logsB, base_items, k, dev_exp, acc_exp, c_in, diffs, rtol, run='B', gam=gB)
         rec['B'] = observe(gB, outB, None)
     return rec
 
@@ -507,17 +536,40 @@ def _default_items(desc):
     return ['deviance', 'diffs', 'accuracy'] if CLASSES[desc['cls']][0] == 'LogisticGAM' else ['deviance', 'diffs']
 
 
-def _oracle_builtin_logs(fail, logs, items, k, dev_exp, acc_exp, c_in, diffs, rtol, run):
+def _oracle_builtin_logs(fail, logs, items, k, dev_exp, acc_exp, c_in, diffs, rtol, run, gam=None):
     """each enabled callback has exactly one entry per iteration (per hook) with the right content"""
     want = {}
     for it in items:
         name = it if isinstance(it, str) else it[2]
-        per = 1 if isinstance(it, str) else {'probe': 2, 'startonly': 1, 'endonly': 1, 'both': 2, 'noargs': 1, 'locals': 2}[it[1]]
+        per = 1 if isinstance(it, str) else HOOKS_PER_KIND[it[1]]
         want[name] = want.get(name, 0) + per
     for name, per in want.items():
         got = len(logs.get(name, []))
         if got != per * k:
             fail('number of log entries is not hooks x iterations', key=name, entries=got, hooks=per, iterations=k, run=run)
+    # callbacks whose hooks return None: one entry per call all the same, and the callback's own tally of calls
+    # (its count of the iterations) must be the iteration count
+    for it in items:
+        if isinstance(it, str) or it[1] not in NONE_KINDS:
+            continue
+        ret, hooks = NONE_KINDS[it[1]]
+        cb = next((c for c in getattr(gam, 'callbacks', []) if str(c) == it[2]), None) if gam is not None else None
+        if cb is not None:
+            tally = dict(start=cb.n_start if hooks in ('s', 'b') else None, end=cb.n_end if hooks in ('e', 'b') else None)
+            if any(v is not None and v != k for v in tally.values()):
+                fail('user hook not called once per iteration', key=it[2], calls=tally, iterations=k, run=run)
+            calls = sum(v for v in tally.values() if v is not None)
+            if len(logs.get(it[2], [])) != calls:
+                fail('a callback whose hook returns None logged fewer entries than it was called', key=it[2],
+                     entries=len(logs.get(it[2], [])), calls=calls, iterations=k, run=run)
+                continue
+        ent = logs.get(it[2], [])
+        per = HOOKS_PER_KIND[it[1]]
+        if len(ent) == per * k:
+            for i in range(k):
+                for v in ent[i * per:(i + 1) * per]:
+                    if (v is None) != (ret == 'n' or i % 2 == 0):
+                        fail('entry of a None-returning hook is not what the hook returned', key=it[2], it=i, run=run)
     extra = sorted(set(logs.keys()) - set(want.keys()))
     if extra:
         fail('log keys of callbacks that are not enabled', keys=extra, run=run)
@@ -546,7 +598,9 @@ def observe(gam, out, probe_name):
     for key, ent in dict(gam.logs_).items():
         row = []
         for v in ent:
-            if isinstance(v, dict):
+            if v is None:
+                row.append(dict(none=True))
+            elif isinstance(v, dict):
                 row.append(dict(h=v['h'], k=v['k'], diff=f2b(v['diff']) if 'diff' in v else None))
             elif isinstance(v, np.ndarray):
                 row.append(dict(vec=np.asarray(v).ravel().tolist()))
@@ -628,6 +682,9 @@ def compare_with_model(rec, obs, pred, rtol=1e-9, old_obs=None):
             elif e.startswith('diff:'):
                 if 'num' not in g or f2b(g['num']) != e[5:]:
                     bad = 'diff %s' % e[5:]
+            elif e == 'none':
+                if g != dict(none=True):
+                    bad = 'the hook returned None: an entry None'
             elif e.startswith('us:'):
                 i = int(e.rsplit('@', 1)[1])
                 if g.get('h') != 's' or g.get('k') not in (i, None):
@@ -686,7 +743,7 @@ def group_configs(rng, desc, ref_diffs, lits, n_cfg):
     kref = len(ref_diffs)
     fin = [d for d in ref_diffs if math.isfinite(d) and d > 0]
     subsets = [list(c) for r in range(5) for c in itertools.combinations(BUILTINS, r)]
-    users = ['none', 'none', 'probe', 'startonly', 'endonly', 'both', 'locals', 'shared', 'twice', 'noargs', 'default']
+    users = ['none', 'none', 'probe', 'startonly', 'endonly', 'both', 'locals', 'shared', 'twice', 'noargs', 'default'] + sorted(NONE_KINDS)
     for j in range(n_cfg):
         # tol
         mode = rng.choice(['log', 'log', 'on', 'above', 'below', 'lit', 'edge'])
@@ -716,7 +773,7 @@ def group_configs(rng, desc, ref_diffs, lits, n_cfg):
             items = list(sub)
             if user == 'probe':
                 items.insert(rng.randint(0, len(items)), ['user', 'probe', 'probe'])
-            elif user in ('startonly', 'endonly', 'both', 'noargs', 'locals'):
+            elif user in ('startonly', 'endonly', 'both', 'noargs', 'locals') or user in NONE_KINDS:
                 items.insert(rng.randint(0, len(items)), ['user', user, 'u_' + user])
             elif user == 'shared':      # two user callbacks logging under one key
                 items.insert(rng.randint(0, len(items)), ['user', 'both', 'dup'])
